@@ -217,9 +217,11 @@ theorem readOperand_rel (h : Sim φ s t) (ok : SizeOk s.heap) (ok' : SizeOk t.he
 
 /-! ## operands -/
 
-/-- a `BasePointerOffset` operand in the running lambda designates a live stack slot -/
+/-- if the operand about to be read (`ip.1` points at it) is a `BasePointerOffset`, it designates a live stack
+    slot -/
 def BpLive (s : St CHeap) : Prop :=
-  ∀ l off, lambdaAt s.heap s.ipL = some l → VCell.bpOffset off ∈ l.bc → (s.bp : Int) + off ≤ s.stack.sp
+  ∀ l off, lambdaAt s.heap s.ipL = some l → l.bc[s.ipO]? = some (VCell.bpOffset off) →
+    (s.bp : Int) + off ≤ s.stack.sp
 
 theorem CodeAt.mem {s : St CHeap} {c0 : VCell} (hc : CodeAt s c0) :
     ∃ l, lambdaAt s.heap s.ipL = some l ∧ c0 ∈ l.bc := by
@@ -257,7 +259,10 @@ theorem loadOperand_rel (h : Sim φ s t) (ok : SizeOk s.heap) (ok' : SizeOk t.he
       simp only [concreteOps]
       have ebp : (t.bp : Int) + off = (s.bp : Int) + off := by rw [h.bp]
       simp only [ebp]
-      obtain ⟨l, hl, hm⟩ := hc1.mem
+      obtain ⟨l, j, hl, hj', hm⟩ := hc1
+      simp only at hl hj' hm
+      have hjs : j = s.ipO := by omega
+      subst hjs
       have hlive := live l off hl hm
       split
       · refine (h.stack.get (i := ((s.bp : Int) + off).toNat) (by omega)).bind ?_
